@@ -275,3 +275,91 @@ def observed_note_lines(note):
         if d:
             obs[p] = d
     return obs
+
+
+# ------------------------------------------------------------------ Sys model correspondence
+def norm_text(t):
+    return "".join(t.split())
+
+
+def sys_requests(sc, sessions_index=None):
+    """Translate a scenario (explicit steps) into one `sys_run` request per file for the Lean Sys
+    model (Model/Sys.lean). Line ids are indices of distinct whitespace-normalised texts; sessions
+    are numbered. Returns {path: request} and the session numbering."""
+    ids = {}
+    sess = dict(sessions_index or {})
+
+    def lid(t):
+        k = norm_text(t)
+        if k not in ids:
+            ids[k] = len(ids) + 1
+        return ids[k]
+
+    def sid(s):
+        if s not in sess:
+            sess[s] = len(sess) + 1
+        return sess[s]
+
+    files = {}        # path -> {"head": [...], "ops": [...], "started": bool}
+    base_done = False
+    order = []
+    for st in sc["steps"]:
+        op = st["op"]
+        if op == "edit":
+            p = st["path"]
+            ys = [lid(l[0]) for l in st["lines"]]
+            f = files.setdefault(p, {"head": [], "ops": []})
+            if p not in order:
+                order.append(p)
+            if not base_done:
+                f["head"] = ys          # base content (committed by the first commit)
+            elif st["who"] == "human":
+                f["ops"].append({"k": "human", "ys": ys})
+            else:
+                f["ops"].append({"k": "ai", "s": sid(st["who"]), "ys": ys})
+        elif op == "human_checkpoint":
+            if base_done:
+                for p in (st.get("paths") or list(files)):
+                    if p in files:
+                        files[p]["ops"].append({"k": "hcp"})
+        elif op == "checkpoint":
+            if base_done:
+                for p in files:
+                    files[p]["ops"].append({"k": "hcp"})
+        elif op == "ai_checkpoint_again":
+            pass
+        elif op == "stage_content":
+            p = st["path"]
+            files.setdefault(p, {"head": [], "ops": []})["ops"].append({"k": "stage", "ys": [lid(l[0]) for l in st["lines"]]})
+        elif op == "commit":
+            if not base_done:
+                base_done = True
+                continue
+            mode = st.get("add", "paths" if st.get("paths") else "all")
+            for p, f in files.items():
+                if mode == "all" or (mode == "paths" and p in st["paths"]):
+                    f["ops"].append({"k": "stageAll"})
+                f["ops"].append({"k": "commit"})
+    reqs = {p: {"op": "sys_run", "head": f["head"], "ops": f["ops"]} for p, f in files.items()}
+    return reqs, sess
+
+
+def sys_compare(sc, commits_observed, run_driver):
+    """commits_observed: list (one per non-base commit, in order) of {path: {line: hash}}.
+    Returns (n_compared, disagreements)."""
+    reqs, sess = sys_requests(sc)
+    inv = {v: hash_of(k) for k, v in sess.items()}
+    paths = sorted(reqs)
+    resps = run_driver([reqs[p] for p in paths])
+    bad, n = [], 0
+    for p, r in zip(paths, resps):
+        notes = r.get("notes")
+        if notes is None:
+            bad.append({"path": p, "driver": r}); continue
+        for k, obs in enumerate(commits_observed):
+            pred = {str(l): inv[s] for (l, s) in notes[k]} if k < len(notes) else {}
+            got = {str(l): h for l, h in (obs.get(p) or {}).items()}
+            n += 1
+            if pred != got:
+                bad.append({"path": p, "commit_index": k + 1, "predicted": pred, "observed": got, "request": reqs[p]})
+    return n, bad
